@@ -71,7 +71,19 @@ TPipe ==
             \cup Flag(Ev.ok /\ ((Ev.early = "RIB_PROGRAMMED") # (v.k = "rib") \/ Ev.earlyInstalled # (v.k = "rib")), "schedStreamOrder")
             \cup Flag(Ev.ok /\ Ev.elec # <<0, 2>>, "schedCur"))
 
-STNext == TStart \/ TStep \/ TEnd \/ TPipe
+\* a violation by a client that has stopped reading (the write of an earlier answer is held up): the RPC ends with the status
+\* GribiServer assigns to the violation (zero election id, repeated parameters, two fields populated) and the session's footprint
+\* goes - a later session negotiates another acknowledgement type
+TBlocked ==
+  /\ IsEvent("sblock")
+  /\ UNCHANGED schedvars
+  /\ LET want == CASE Ev.violation = "paramsAgain" -> "FailedPrecondition" [] OTHER -> "InvalidArgument" IN
+     Report(Flag(~Ev.ok, "schedSetup")
+            \cup Flag(Ev.ok /\ ~Ev.returned, "schedViolationNotEnded")
+            \cup Flag(Ev.ok /\ Ev.returned /\ Ev.code # want, "schedViolationStatus")
+            \cup Flag(Ev.ok /\ Ev.later # "negotiated", "schedFootprintLeft"))
+
+STNext == TStart \/ TStep \/ TEnd \/ TPipe \/ TBlocked
 STSpec == STInit /\ [][STNext]_stvars
 
 Matched == TLCGet("stats").diameter - 1
